@@ -160,12 +160,23 @@ func genC01(r *rng, n int) {
 		rootVal := generic.NewValue(desc, buf)
 		var paths [][]Step
 		val.allPaths(nil, &paths, 40, r)
+		db := descBytes(root, nil)
+		// 108: the typed layer judged by its own model (descriptor = the abstract shape the IDL was printed from)
+		emitTyped := func(api int, p []Step, obs []string) {
+			f := []string{fi(int(thrift.STRUCT)), fx(buf), fx(db), fi(api)}
+			f = append(f, pathFields(p)...)
+			f = append(f, obs...)
+			out.emit(108, f...)
+		}
 		emit := func(api int, p []Step, obs []string) {
 			f := []string{fi(int(thrift.STRUCT)), fx(buf)}
 			f = append(f, pathFields(p)...)
 			f = append(f, fi(api), fb(declaredIn(root, p)))
 			f = append(f, obs...)
 			out.emit(101, f...)
+			if api == 2 || api == 3 || api == 5 {
+				emitTyped(api, p, obs)
+			}
 		}
 		run := func(p []Step) {
 			gp := toPath(p)
@@ -184,6 +195,22 @@ func genC01(r *rng, n int) {
 					obs = panicObs
 				}
 				emit(3, np, obs)
+				if r.chance(12) { // a name the IDL does not define, somewhere along the path
+					bp := append([]Step(nil), np...)
+					var idx []int
+					for i, st := range bp {
+						if st.Kind == 6 {
+							idx = append(idx, i)
+						}
+					}
+					k := idx[r.intn(len(idx))]
+					bp[k] = Step{Kind: 6, B: []byte("no_such_field"), NameID: -1}
+					gp3 := toPath(bp)
+					if ok, _ := noPanic(func() { obs = observe(buf, rootVal.GetByPath(gp3...).Node) }); !ok {
+						obs = panicObs
+					}
+					emitTyped(3, bp, obs)
+				}
 			}
 			// single-step APIs on the parent node
 			if len(p) > 0 {
@@ -313,7 +340,7 @@ func genC01(r *rng, n int) {
 			}
 			out.emit(102, f...)
 		}
-		genC01More(r, g, root, desc, val, buf, paths)
+		genC01More(r, g, root, desc, val, buf, paths, db)
 		if vi < 2 {
 			genC01Deep(r)
 		}
@@ -321,4 +348,24 @@ func genC01(r *rng, n int) {
 			genC01Cast(r)
 		}
 	}
+}
+
+// descriptor bytes for check 108: scalar [t]; list [15] e; set [14] e; map [13] k e; struct [12 n_hi n_lo] n x (id_hi id_lo len name desc)
+func descBytes(t *Ty, b []byte) []byte {
+	switch t.K {
+	case thrift.LIST, thrift.SET:
+		return descBytes(t.Elem, append(b, byte(t.K)))
+	case thrift.MAP:
+		b = descBytes(t.Key, append(b, byte(t.K)))
+		return descBytes(t.Elem, b)
+	case thrift.STRUCT:
+		b = append(b, byte(t.K), byte(len(t.Fields)>>8), byte(len(t.Fields)))
+		for _, f := range t.Fields {
+			b = append(b, byte(uint16(f.ID)>>8), byte(f.ID), byte(len(f.Name)))
+			b = append(b, f.Name...)
+			b = descBytes(f.T, b)
+		}
+		return b
+	}
+	return append(b, byte(t.K))
 }
